@@ -133,6 +133,30 @@ func (w *World) axiomsFor(terms []*Term) []string {
 		}
 		out = append(out, fmt.Sprintf("(declare-fun %s (%s) %s)", smtName(n), strings.Join(as, " "), s.res.SMT()))
 	}
+	// abstract invariants hold for the zero value (proved in the defining package: obligations "#inv.zero")
+	for _, n := range names {
+		if strings.HasPrefix(n, "inv$") {
+			sg := decls[n]
+			var bvs, args []string
+			for i, a := range sg.args {
+				switch a {
+				case SInt:
+					args = append(args, "0")
+				case SBool:
+					args = append(args, "false")
+				default:
+					bv := fmt.Sprintf("z%d", i)
+					bvs = append(bvs, fmt.Sprintf("(%s %s)", bv, a.SMT()))
+					args = append(args, bv)
+				}
+			}
+			body := fmt.Sprintf("(%s %s)", smtName(n), strings.Join(args, " "))
+			if len(bvs) > 0 {
+				body = fmt.Sprintf("(forall (%s) %s)", strings.Join(bvs, " "), body)
+			}
+			out = append(out, "(assert "+body+")")
+		}
+	}
 	// string literal contents
 	for _, n := range names {
 		if content, ok := w.litByName[n]; ok {
